@@ -69,9 +69,29 @@ func c15(r *core.Run) {
 	}
 	models := c04Models(r, "R1")
 	mQ := models["queryRequest"]
-	hq := methodNamed(p, "", "queryEvent", "handleQueryRequest")
-	lst := methodNamed(p, "", "queryEvent", "startQueryListener")
+	// roles: QueryEvent is the public entry point; the listener is the queryEvent method it starts
+	// with go; the request handler is the queryEvent method that takes the NATS message
 	qev := methodNamed(p, "", "resource", "QueryEvent")
+	var hq, lst *ssa.Function
+	if qev != nil {
+		for _, f2 := range p.Scope(qev) {
+			for _, c := range core.Calls(f2) {
+				if cal := c.Common().StaticCallee(); core.IsGo(c) && cal != nil && cal.Signature.Recv() != nil && isPtrTo(cal.Signature.Recv().Type(), "queryEvent") {
+					lst = cal
+				}
+			}
+		}
+	}
+	for _, m := range methodsOf(p, "", "queryEvent") {
+		if m == lst || m.Parent() != nil {
+			continue
+		}
+		for _, prm := range m.Params[1:] {
+			if strings.HasSuffix(core.TypeName(prm.Type()), "nats.go.Msg") {
+				hq = m
+			}
+		}
+	}
 	if mQ == nil || hq == nil || lst == nil || qev == nil {
 		r.Unres("R1", "queryRequest model / handleQueryRequest / startQueryListener / QueryEvent", "missing")
 		return
@@ -304,10 +324,24 @@ func c15(r *core.Run) {
 		}
 		r.Check(sameSub && pubOK, "S1", core.FuncName(qev), "subject:NewInbox==subscribed==published", p.InstrPos(inbox), "one fresh inbox value is subscribed and announced", fmt.Sprintf("inbox value mismatch: subscribed=%v published=%v", sameSub, pubOK))
 		// Add on every success path: dominated by success edge and every return after the publish is dominated by Add
+		// typestate: 1 = published and not yet registered; no return may be reached in that state
 		addOK := true
-		for _, ret := range core.Returns(qev) {
-			if core.Reaches(pub, ret) && !core.Dominates(add, ret) {
-				addOK = false
+		{
+			fl := &core.Flow{Fn: qev, Entry: core.StateSet(0).Add(0)}
+			fl.Transfer = func(in ssa.Instruction, st int) core.StateSet {
+				switch {
+				case in == ssa.Instruction(pub):
+					return core.StateSet(0).Add(1)
+				case in == ssa.Instruction(add) && st == 1:
+					return core.StateSet(0).Add(2)
+				}
+				return core.StateSet(0).Add(st)
+			}
+			res := fl.Run()
+			for _, ret := range core.Returns(qev) {
+				if res.Before[ret].Has(1) {
+					addOK = false
+				}
 			}
 		}
 		r.Check(addOK && core.Dominates(pub, add), "S1", core.FuncName(qev), "registered-for-expiry-on-every-success-path", p.InstrPos(add), "a published query event is always added to the timer queue", "a query event can be published without being registered for expiry (callback never gets nil, subscription never drained)")
